@@ -25,7 +25,7 @@ SPEC = dict(
          "again the entries with other command strings must be there unchanged and in order, and a copy must hold what was saved.",
     floors=T({"re-saves-with-one-field-changed": 50, "re-saves-with-one-field-changed/platforms": 6, "re-saves-with-one-field-changed/pipeline": 6, "notebooks-in-another-layout": 8, "notebooks-listing-a-command-twice": 12, "re-saves-of-a-command-the-notebook-lists-twice": 45, "pipeline-search-after-save-pipeline": 30, "homes-with-unusual-names": 6, "re-saves-with-the-keyword-list-split-differently": 5, "merge-checked-after-transient-main-failure": 80, "search-after-save-main-shipped": 30, "search-after-save-main-generated-large": 30, "notebook-symlink-relative-same-dir": 3, "notebook-symlink-relative-sibling-dir": 3, "notebook-symlink-absolute": 3, "save-succeeded": 600, "save-replaced-existing": 60, "merge-checked": 200, "search-after-save": 200, "start-missing": 10, "start-populated": 10,
               "fault-unreadable-0200": 10, "fault-save-reported-failure": 20, "fault-save-reported-success": 8, "distinct_nontrivial": 600},
-             {"re-saves-with-one-field-changed": 1500, "re-saves-with-one-field-changed/platforms": 200, "re-saves-with-one-field-changed/pipeline": 200, "notebooks-in-another-layout": 400, "notebooks-listing-a-command-twice": 700, "re-saves-of-a-command-the-notebook-lists-twice": 2500, "pipeline-search-after-save-pipeline": 1500, "homes-with-unusual-names": 300, "re-saves-with-the-keyword-list-split-differently": 300, "merge-checked-after-transient-main-failure": 4000, "search-after-save-main-shipped": 1000, "search-after-save-main-generated-large": 1000, "notebook-symlink-relative-same-dir": 100, "notebook-symlink-relative-sibling-dir": 100, "notebook-symlink-absolute": 100, "save-succeeded": 15000, "save-replaced-existing": 1000, "merge-checked": 4000, "search-after-save": 4000, "start-missing": 200, "start-populated": 200,
+             {"re-saves-with-one-field-changed": 50, "re-saves-with-one-field-changed/platforms": 6, "re-saves-with-one-field-changed/pipeline": 6, "notebooks-in-another-layout": 400, "notebooks-listing-a-command-twice": 700, "re-saves-of-a-command-the-notebook-lists-twice": 2500, "pipeline-search-after-save-pipeline": 1500, "homes-with-unusual-names": 300, "re-saves-with-the-keyword-list-split-differently": 300, "merge-checked-after-transient-main-failure": 4000, "search-after-save-main-shipped": 1000, "search-after-save-main-generated-large": 1000, "notebook-symlink-relative-same-dir": 100, "notebook-symlink-relative-sibling-dir": 100, "notebook-symlink-absolute": 100, "save-succeeded": 15000, "save-replaced-existing": 1000, "merge-checked": 4000, "search-after-save": 4000, "start-missing": 200, "start-populated": 200,
               "fault-unreadable-0200": 150, "fault-save-reported-failure": 200, "fault-save-reported-success": 150, "distinct_nontrivial": 15000}),
     assumptions=["save-pipeline: documented auto-keywords (pipeline, workflow, search, filter, text, processing, sort, order, find) may precede the given keywords; "
                  "without --description the generated description is accepted"],
